@@ -9,8 +9,8 @@ package main
 // starts from the same abstract graph (empty graph + AddEdge; the theorems hold from every state
 // related by Rd/Rs, in particular for edge bytes other than 1 and any capacity), so provenance
 // cases have no strict part.  Values produced by constructors/decoders/transformations that are
-// the subject of other properties are guarded: if they do not present (n0, edges) through every
-// observer the plain value is used instead.  Copy and InducedSubgraph results are not guarded
+// the subject of other properties are guarded: if their struct fields do not represent (n0, edges)
+// the plain value is used instead (the guard does not call the observers: they are under test).  Copy and InducedSubgraph results are not guarded
 // (they are C05's subject): the initial observation "I:" compares them with the model.
 
 import (
@@ -183,11 +183,13 @@ func pEditDown(n int, es []pedge, r *hx.Rng, mk func(n int, es []pedge) graph.Ed
 	return g
 }
 
-// presents: g shows exactly (n, es) through every observer.
+// presents: the value REPRESENTS exactly (n, es).  The guard looks at the struct fields, not at
+// the observers: the observers (IsEdge, Neighbours, Degrees, N, M) are C05's own subject and are
+// compared with the model in the initial dump, so a wrong observer must not make the guard
+// fall back to the plain value.  Dense: n, m, degree sequence, len(Edges) = n(n-1)/2 and a
+// non-zero byte exactly at the cells of the edges.  Sparse: n, m, degree sequence and the
+// ascending neighbour lists.
 func presents(g graph.Graph, n int, es []pedge) bool {
-	if g == nil || g.N() != n || g.M() != len(es) {
-		return false
-	}
 	adj := make([][]bool, n)
 	deg := make([]int, n)
 	for i := range adj {
@@ -198,34 +200,48 @@ func presents(g graph.Graph, n int, es []pedge) bool {
 		deg[e.v]++
 		deg[e.u]++
 	}
-	d := g.Degrees()
-	if len(d) != n {
-		return false
-	}
-	for v := 0; v < n; v++ {
-		if d[v] != deg[v] {
+	sameInts := func(a, b []int) bool {
+		if len(a) != len(b) {
 			return false
 		}
-		var want []int
-		for u := 0; u < n; u++ {
-			if g.IsEdge(v, u) != adj[v][u] {
-				return false
-			}
-			if adj[v][u] {
-				want = append(want, u)
-			}
-		}
-		got := g.Neighbours(v)
-		if len(got) != len(want) {
-			return false
-		}
-		for i := range got {
-			if got[i] != want[i] {
+		for i := range a {
+			if a[i] != b[i] {
 				return false
 			}
 		}
+		return true
 	}
-	return true
+	switch x := g.(type) {
+	case *graph.DenseGraph:
+		if x == nil || x.NumberOfVertices != n || x.NumberOfEdges != len(es) || !sameInts(x.DegreeSequence, deg) || len(x.Edges) != n*(n-1)/2 {
+			return false
+		}
+		for v := 1; v < n; v++ {
+			for u := 0; u < v; u++ {
+				if (x.Edges[v*(v-1)/2+u] > 0) != adj[v][u] {
+					return false
+				}
+			}
+		}
+		return true
+	case *graph.SparseGraph:
+		if x == nil || x.NumberOfVertices != n || x.NumberOfEdges != len(es) || !sameInts(x.DegreeSequence, deg) || len(x.Neighbourhoods) != n {
+			return false
+		}
+		for v := 0; v < n; v++ {
+			var want []int
+			for u := 0; u < n; u++ {
+				if adj[v][u] {
+					want = append(want, u)
+				}
+			}
+			if !sameInts([]int(x.Neighbourhoods[v]), want) {
+				return false
+			}
+		}
+		return true
+	}
+	return false
 }
 
 func pcall(f func()) (ok bool) {
